@@ -97,6 +97,7 @@ def part_a(ctx, corr, lost_model):
         if not cfgk["accounts"]:
             continue
         cases = []
+        ex_cases = []
 
         def script(tr, handlers):
             init0 = handlers["init"]
@@ -110,11 +111,25 @@ def part_a(ctx, corr, lost_model):
                             env = Environment.get_instance()
                             a, b = roundtrip(env)
                             cases.append((name, env.calendar_dt, a, b))
+                            # the executor's own persisted state ("the morning of this trading day is done"): what a restored executor compares the clock with
+                            from rqalpha.core.executor import Executor
+                            for val in (env.trading_dt.date(), None):
+                                e1, e2 = Executor(env), Executor(env)
+                                e1._last_before_trading = val
+                                e2.set_state(e1.get_state())
+                                ex_cases.append((name, env.calendar_dt, val, e2._last_before_trading))
                         return h
                     api.subscribe_event(getattr(EVENT, name), mk(name))
             return dict(handlers, init=init)
         tr = trading.run_trading(r2, S, cfgk, script=script)
         ctx.stats["runs_a"] += 1
+        for name, when, v1, v2 in ex_cases:
+            ctx.evaluations += 1
+            ctx.stats["executor_roundtrips"] += 1
+            if type(v1) is not type(v2) or v1 != v2:
+                ctx.witness("C14.2", {"kind": "executor_state_lost"}, "%s at %s: the executor's state (last_before_trading = %r) comes back from get_state/set_state as %r: a run resumed inside this trading day "
+                            "does not recognise that its morning is done (the comparison is with a date)" % (name, when, v1, v2), {"point": name, "when": str(when)})
+                break
         for name, when, a, b in cases:
             ctx.evaluations += 1
             lost = diff_fields(a, b)
